@@ -192,7 +192,10 @@ func (ao *accountObject) GetCommittedData(db AccountDatabase, key []byte) []byte
 
 	if value != nil {
 		ao.cachedLock.Lock()
-		ao.cachedStorage[string(key)] = value
+		// fill the cache only: a cached value may be newer than the committed one
+		if _, cached := ao.cachedStorage[string(key)]; !cached {
+			ao.cachedStorage[string(key)] = value
+		}
 		ao.cachedLock.Unlock()
 	}
 	return value
